@@ -67,6 +67,14 @@ CLAIMED['C14'] = dict(
          'counters inside and beyond the key/reference window, AlreadyReceived truthfulness, non-interference both ways, INT-CTXT tamper rejection.',
     note=TA + 'window N=2, reference window R=1, one group and sender, counters 1..4.', design='6/C14')
 
+CLAIMED['C03'] = dict(
+    text='Symbolic execution of openGroupEnvelope, the event-type table (read from the package initialiser of the current tree), the three signature '
+         'checkers and UpdateIndex: for each of the 21 mapped types the envelope is a free byte string, the group secret is adversary-known, exactly the '
+         'required signer(s) are honest (EUF-CMA) and silent, all other keys adversary-controlled; accepted events naming an honest key, unknown types, '
+         'honest positive controls, other-group rejection, rejected entry leaves the index empty.',
+    note=TA + 'the event-bus emitter goroutine of the store constructor is not executed (emission happens only after openMetadataEntry succeeds, which is what is checked).',
+    design='6/C03')
+
 NOT_APPLICABLE = {}
 ALL = ['C%02d' % i for i in range(1, 21)]
 PENDING_REASON = 'no solver-based check registered yet for this property in the current state of /verif (see DESIGN.md section 9)'
